@@ -59,6 +59,11 @@ pub struct Sched {
     pub calib: Vec<(u8, usize)>,
     /// accesses a thread is about to make inside the current API call; they take effect just before its next index store
     pub pending: [Vec<(usize, bool, String)>; NT],
+    /// two- or three-stage buffer (decides whose published index an iterator looks at)
+    pub has_w: bool,
+    /// the execution as the Lean concurrent machine sees it: leader-index loads (`cld T msg val`), own-index stores (`cst T val`),
+    /// slot accesses (`cac T slot`), in the order they took effect
+    pub trace: Vec<String>,
 }
 
 pub static S: Mutex<Option<Sched>> = Mutex::new(None);
@@ -75,7 +80,7 @@ impl Sched {
     pub fn new(seed: u64, script: Vec<usize>, stale_pct: usize) -> Sched {
         Sched { turn: usize::MAX, finished: [true; NT], active: [false; NT], rng: Rng::new(seed), script, script_pos: 0, decisions: vec![], locs: HashMap::new(),
             vc: [[0; NT]; NT], events: vec![], last_access: HashMap::new(), races: vec![], uaf: vec![], freed: 0, boxed: 0, buf_range: (0, 0), stale_pct, steps: 0,
-            call_events: [vec![], vec![], vec![]], solo: None, solo_at: None, park_budget: 20000, hung: None, calib: vec![], pending: [vec![], vec![], vec![]] }
+            call_events: [vec![], vec![], vec![]], solo: None, solo_at: None, park_budget: 20000, hung: None, calib: vec![], pending: [vec![], vec![], vec![]], has_w: false, trace: vec![] }
     }
 
     fn decide(&mut self, n: usize, prefer_last: bool) -> usize {
@@ -99,7 +104,12 @@ impl Sched {
     pub fn loc_name(&self, addr: usize) -> String { self.locs.get(&addr).map(|l| l.name.clone()).unwrap_or_else(|| format!("loc{:x}", addr & 0xfff)) }
 
     /// A non-atomic access of thread `t` to `slot`; reports a race unless every earlier conflicting access happens-before it.
+    /// Name of the published index thread `t` owns / looks at.
+    pub fn own_loc(t: usize) -> &'static str { ["prodIdx", "workIdx", "consIdx"][t] }
+    pub fn lead_loc(&self, t: usize) -> &'static str { match t { 0 => "consIdx", 1 => "prodIdx", _ => if self.has_w { "workIdx" } else { "prodIdx" } } }
+
     pub fn access(&mut self, t: usize, slot: usize, write: bool, what: &str) {
+        self.trace.push(format!("cac {} {}", ["P", "W", "C"][t], slot));
         self.vc[t][t] += 1;
         let now = self.vc[t];
         let entry = self.last_access.entry(slot).or_insert([None, None, None]);
@@ -231,6 +241,7 @@ pub fn hook(phase: u8, ev: &Event) -> Option<usize> {
                 let m = l.msgs[idx].clone();
                 if is_acq(ev.ord) && m.release { let mut v = s.vc[t]; join(&mut v, &m.view); s.vc[t] = v; }
                 if idx != last { sub = Some(m.val); }
+                if name == s.lead_loc(t) { s.trace.push(format!("cld {} {} {}", ["P", "W", "C"][t], idx, m.val)); }
                 s.events.push(AtomicEv { t, kind: ev.kind, loc: name, ord: ord_name(ev.ord).into(), val: m.val, read_idx: Some(idx), last_idx: last });
             }
             verif::STORE => {
@@ -240,6 +251,7 @@ pub fn hook(phase: u8, ev: &Event) -> Option<usize> {
                 l.msgs.push(Msg { val: ev.val, view, release: is_rel(ev.ord), by: t, stamp });
                 l.seen[t] = l.msgs.len() - 1;
                 let last = l.msgs.len() - 1;
+                if name == Sched::own_loc(t) { s.trace.push(format!("cst {} {}", ["P", "W", "C"][t], ev.val)); }
                 s.events.push(AtomicEv { t, kind: ev.kind, loc: name, ord: ord_name(ev.ord).into(), val: ev.val, read_idx: None, last_idx: last });
             }
             verif::RMW => {
